@@ -92,7 +92,7 @@ def to_proto(src, macros=None, incremental=False, shared=None) -> ProtoSubroutin
     return ProtoSubroutine(commands=cmds, app_id=0, netqasm_version=(0, 0))
 
 
-def to_text(src, macros: Dict[str, str], bracket_array: bool, lstyle: int = 0) -> str:
+def to_text(src, macros: Dict[str, str], bracket_array: bool, lstyle: int = 0, bracket_args: bool = False, pair_macro: bool = False) -> str:
     """Render as NetQASM text.  `macros` maps a rendered token (e.g. 'R0' or '7')
     to a macro key; such tokens are written as $key."""
     lines = ["# NETQASM 0.0", "# APPID 0"]
@@ -118,7 +118,20 @@ def to_text(src, macros: Dict[str, str], bracket_array: bool, lstyle: int = 0) -
             elif g == "slice":
                 a, s, e = flat.pop(0), flat.pop(0), flat.pop(0)
                 words.append(f"@{a['v']}[{tk(s)}:{tk(e)}]")
-        if bracket_array and it["mn"] == "array" and it["ops"][0]["k"] == "lit":
+        lead = 0
+        while bracket_args and lead < min(2, len(it["ops"]) - 1) and it["ops"][lead]["k"] == "lit" and GROUPS[SHAPE[it["mn"]]][lead] in ("reg", "num"):
+            lead += 1
+        two_regs = len(words) >= 2 and all(o["k"] == "reg" for o in it["ops"][:2]) and all(g_ in ("reg", "num") for g_ in list(GROUPS[SHAPE[it["mn"]]][:2]))
+        if pair_macro and two_regs:
+            # a macro whose value is two words (written between braces)
+            key = f"pair{len([x for x in lines if x.startswith('# DEFINE pair')])}"
+            lines.insert(2, f"# DEFINE {key} {{{words[0]} {words[1]}}}")
+            lines.append(it["mn"] + " $" + key + (" " + " ".join(words[2:]) if len(words) > 2 else ""))
+        elif lead:
+            # the leading constants between argument brackets (any sign; a blank after the delimiter on every other line)
+            sep = ", " if len(lines) % 2 else ","
+            lines.append(f"{it['mn']}({sep.join(words[:lead])}) " + " ".join(words[lead:]))
+        elif bracket_array and it["mn"] == "array" and it["ops"][0]["k"] == "lit":
             lines.append(f"array({it['ops'][0]['v']}) {words[1]}  // bracketed argument")
         else:
             lines.append(it["mn"] + " " + " ".join(words) + ("  // c" if len(lines) % 3 == 0 else ""))
@@ -245,6 +258,12 @@ def assemble_all(src, rng, mode) -> List[Tuple[str, Any, str]]:
             out.append(("text-register-like-labels", [dict(zip(("mn", "ops"), isa.flatten(i))) for i in sub.instructions], ""))
         except Exception as ex:
             out.append(("text-register-like-labels", None, f"{type(ex).__name__}: {ex}"[:160]))
+    for path_, kw_ in (("text-bracket-args", dict(bracket_args=True)), ("text-two-word-macro", dict(pair_macro=True))):
+        try:
+            sub = parse_text_subroutine(to_text(src, {}, False, **kw_))
+            out.append((path_, [dict(zip(("mn", "ops"), isa.flatten(i))) for i in sub.instructions], ""))
+        except Exception as ex:
+            out.append((path_, None, f"{type(ex).__name__}: {ex}"[:160]))
     toks = sorted({regname(o["v"]) for it in src if it["t"] == "cmd" for o in it["ops"] if o["k"] == "reg"})
     variants = [("text", {}, False)]
     if toks:
